@@ -10,6 +10,7 @@ import (
 	"encoding/json"
 	"fmt"
 	"sort"
+	"strconv"
 	"strings"
 	"time"
 
@@ -31,6 +32,11 @@ import (
 	tokentypes "mods.irisnet.org/modules/token/types"
 	tokenv1 "mods.irisnet.org/modules/token/types/v1"
 
+	govv1 "github.com/cosmos/cosmos-sdk/x/gov/types/v1"
+
+	authtypes "github.com/cosmos/cosmos-sdk/x/auth/types"
+	govtypes "github.com/cosmos/cosmos-sdk/x/gov/types"
+
 	"verifharness/chain"
 )
 
@@ -47,9 +53,9 @@ type blockOp struct {
 }
 
 const (
-	hSchemas = `{"input":{"type":"object"},"output":{"type":"object"}}`
-	hInput   = `{"header":{},"body":{}}`
-	hResult  = `{"code":200,"message":""}`
+	hSchemas  = `{"input":{"type":"object"},"output":{"type":"object"}}`
+	hInput    = `{"header":{},"body":{}}`
+	hResult   = `{"code":200,"message":""}`
 	farFuture = int64(4102444800) // 2100-01-01, swap deadlines
 )
 
@@ -107,6 +113,8 @@ type world struct {
 	htlcs     []hHTLC
 	tokens    []hToken
 	stakers   []hStake
+	proposals []uint64       // submitted, not yet voted
+	paramsSet int            // proposals that passed through a vote
 	modules   map[string]int // successful messages per module
 	msgOK     map[string]int
 	msgFail   map[string]int
@@ -117,9 +125,9 @@ func newWorld() *world {
 }
 
 type hist struct {
-	n     *chain.Node // the baseline replica: Next reads committed state from it
-	w     *world
-	rich  int // users 0..rich-1 hold funds
+	n    *chain.Node // the baseline replica: Next reads committed state from it
+	w    *world
+	rich int // users 0..rich-1 hold funds
 	// dueBias (C13): prefer operations on objects that fall due in the block being built.
 	dueBias bool
 }
@@ -193,6 +201,11 @@ func (h *hist) nextTx(t *rapid.T) (txSpec, bool) {
 	k := h.n.K
 	if h.dueBias && rapid.IntRange(0, 2).Draw(t, "due") == 0 {
 		if tx, ok := h.dueTx(t); ok {
+			return tx, true
+		}
+	}
+	if rapid.IntRange(0, 11).Draw(t, "govfam") == 0 {
+		if tx, ok := h.govTx(t); ok {
 			return tx, true
 		}
 	}
@@ -656,6 +669,20 @@ func (h *hist) observe(op blockOp, resp *abci.ResponseFinalizeBlock) {
 				}
 			case *farmtypes.MsgStake:
 				w.stakers = append(w.stakers, hStake{x.PoolId, tx.User})
+			case *govv1.MsgSubmitProposal:
+				for _, id := range attrs(res.Events, "submit_proposal", "proposal_id") {
+					if n, err := strconv.ParseUint(id, 10, 64); err == nil {
+						w.proposals = append(w.proposals, n)
+					}
+				}
+			case *govv1.MsgVote:
+				for j, id := range w.proposals {
+					if id == x.ProposalId {
+						w.proposals = append(w.proposals[:j], w.proposals[j+1:]...)
+						w.paramsSet++
+						break
+					}
+				}
 			case *tokenv1.MsgIssueToken:
 				w.tokens = append(w.tokens, hToken{x.Symbol, x.MinUnit, tx.User, x.Scale})
 			case *tokenv1.MsgTransferTokenOwner:
@@ -668,7 +695,6 @@ func (h *hist) observe(op blockOp, resp *abci.ResponseFinalizeBlock) {
 		}
 	}
 }
-
 
 // dueTx draws an operation aimed at an object that falls due in the next block (the one being built).
 func (h *hist) dueTx(t *rapid.T) (txSpec, bool) {
@@ -726,4 +752,60 @@ func (h *hist) dueTx(t *rapid.T) (txSpec, bool) {
 		return txSpec{}, false
 	}
 	return pick(t, "duecand", cands), true
+}
+
+// govTx draws a governance transaction: a proposal that changes one module's parameters to another valid
+// set (the authority of every module is the gov account), or U0's deciding vote on a pending proposal.
+func (h *hist) govTx(t *rapid.T) (txSpec, bool) {
+	w := h.w
+	ctx := h.n.Ctx()
+	k := h.n.K
+	// forget proposals whose voting period is over
+	live := w.proposals[:0]
+	for _, id := range w.proposals {
+		if p, err := h.n.App.GovKeeper.Proposals.Get(ctx, id); err == nil && p.Status == govv1.StatusVotingPeriod {
+			live = append(live, id)
+		}
+	}
+	w.proposals = live
+	if len(w.proposals) > 0 && rapid.IntRange(0, 3).Draw(t, "vote") != 0 {
+		id := pick(t, "proposal", w.proposals)
+		return txSpec{0, h.enc(govv1.NewMsgVote(h.n.Users[0].Addr, id, govv1.OptionYes, ""))}, true
+	}
+	gov := authtypes.NewModuleAddress(govtypes.ModuleName).String()
+	dec := func(label string, choices ...string) sdkmath.LegacyDec {
+		return sdkmath.LegacyMustNewDecFromStr(pick(t, label, choices))
+	}
+	var msg sdk.Msg
+	switch rapid.IntRange(0, 3).Draw(t, "govmod") {
+	case 0:
+		p := k.Token.GetParams(ctx)
+		p.IssueTokenBaseFee = sdk.NewInt64Coin("stake", int64(pick(t, "basefee", []int{60000, 120000, 1000, 7})))
+		p.TokenTaxRate = dec("tax", "0.4", "0.1", "0.999", "0")
+		p.MintTokenFeeRatio = dec("mintratio", "0.1", "0.5", "1", "0")
+		msg = &tokenv1.MsgUpdateParams{Authority: gov, Params: p}
+	case 1:
+		p := k.Coinswap.GetParams(ctx)
+		p.Fee = dec("fee", "0.003", "0.01", "0.5", "0.000000000000000001")
+		p.TaxRate = dec("cstax", "0.4", "0.01", "0.99")
+		p.UnilateralLiquidityFee = dec("unifee", "0.002", "0", "0.3")
+		p.PoolCreationFee = sdk.NewInt64Coin("stake", int64(pick(t, "poolfee", []int{5000, 1, 100000})))
+		msg = &coinswaptypes.MsgUpdateParams{Authority: gov, Params: p}
+	case 2:
+		p := k.Farm.GetParams(ctx)
+		p.PoolCreationFee = sdk.NewInt64Coin("stake", int64(pick(t, "farmfee", []int{5000, 1, 70000})))
+		p.TaxRate = dec("farmtax", "0.4", "0.05", "0.9")
+		msg = &farmtypes.MsgUpdateParams{Authority: gov, Params: p}
+	default:
+		p := k.Service.GetParams(ctx)
+		p.ServiceFeeTax = dec("svctax", "0.05", "0", "0.5")
+		p.SlashFraction = dec("slash", "0.001", "0", "0.5", "1")
+		p.MaxRequestTimeout = int64(pick(t, "maxto", []int{100, 10, 1000}))
+		msg = &servicetypes.MsgUpdateParams{Authority: gov, Params: p}
+	}
+	sp, err := govv1.NewMsgSubmitProposal([]sdk.Msg{msg}, sdk.NewCoins(sdk.NewInt64Coin("stake", 5)), h.addr(0), "", "params", "change parameters", false)
+	if err != nil {
+		return txSpec{}, false
+	}
+	return txSpec{0, h.enc(sp)}, true
 }
